@@ -14,7 +14,7 @@
 //!
 //! - The original format is fixed format, but we parse it as space-separated format.
 //! - `LI` as lower (negative) integer and `UI` as upper (positive) integer in `BOUNDS` section
-//! - `PL` is treated as `FR` in the `BOUNDS` section.
+//! - `PL` in the `BOUNDS` section is ignored since the upper bound is `+inf` by default.
 //!
 //! Original fixed format
 //! ----------------------
